@@ -317,6 +317,9 @@ func (z *Set[K]) Range(start, stop int) []Node[K] {
 	if stop < 0 {
 		stop = z.list.length + stop
 	}
+	if start < 0 {
+		start = 0
+	}
 
 	var res []Node[K]
 	x := z.list.GetNodeByRank(start + 1) // 0-based rank -> 1-based rank
@@ -381,6 +384,9 @@ func (z *Set[K]) RevRange(start, stop int) []Node[K] {
 	}
 	if stop < 0 {
 		stop = z.list.length + stop
+	}
+	if start < 0 {
+		start = 0
 	}
 
 	var res []Node[K]
